@@ -586,3 +586,43 @@ class SaveEntity(Contract):
 SaveEntity.uses = (WriteEntityStub, SaveChildStub, WriteToParentStub)
 SaveEntity.trusted = ("write_entity / write_to_parent / the recursive save_entity are call summaries here (their own contracts: WriteEntity, WriteToParent, this contract)",)
 CONTRACTS = CONTRACTS + [SaveChildStub, WriteToParentStub, SaveEntity]
+
+
+class WriteEntityMarksType(WriteEntity):
+    """After write_entity the entity's *type* is flagged as stored as well -- whether the type's node
+    was created by this call or was in the file already (another entity of the class wrote it, or an
+    earlier instance of the type that has since been garbage-collected).  Later edits of the type
+    (name, description, maps) are written through only for types flagged as stored.  write_entity_type
+    is executed here, not summarised: which of the two functions sets the flag is their business."""
+    variant = "type-marked-stored"
+    props = ("C03", "C01")
+    uses = (WritePropertiesStub, WriteAttributesStub2)
+
+    def cases(self):
+        return [(k, t) for k in ("data", "object", "group") for t in ("type-node-in-the-file", "type-node-missing", "either")]
+
+    def setup(self, ctx):
+        kind, tstate = ctx.case
+        case, ctx.case = ctx.case, kind
+        try:
+            out = super().setup(ctx)
+        finally:
+            ctx.case = case
+        f, e = ctx.env["f"], ctx.env["e"]
+        ctx.env["wa"] = lambda I, a, kw: I.event("write_attributes", entity=[x for x in a if isinstance(x, AbsObj)][0])
+        tun = f.uname(ctx.I, e.attrs["entity_type"].attrs["uid"]) if hasattr(ctx, "I") and ctx.I is not None else None
+        ctx.env["tstate"] = tstate
+        return out
+
+    def post(self, ctx, result):
+        f, e = ctx.env["f"], ctx.env["e"]
+        kind = ctx.case[0]
+        un = f.uname(ctx.I, e.attrs["uid"])
+        was = f.pre.link(f.cont[kind], un)  # the entity's flat node before the call (0: a new entity)
+        flagged = z3.BoolVal(e.attrs["entity_type"].attrs.get("on_file") is True)
+        ctx.oblige("the-type-of-a-newly-written-entity-is-marked-stored", z3.Implies(was == 0, flagged),
+                   note="the type of a freshly written entity is left unflagged: later assignments on the type are silently not written")
+        ctx.oblige("the-entity-is-marked-stored", e.attrs.get("on_file") is True)
+
+
+CONTRACTS = CONTRACTS + [WriteEntityMarksType]
